@@ -103,6 +103,19 @@ func framesSeeds() [][]byte {
 			}
 		}
 	}
+	// continue mode (entry byte + 6): a text message ending inside a multi-byte sequence, then control
+	// frames with a payload and further messages, the caller going on after ErrInvalidUTF8
+	for _, masked := range []bool{false, true} {
+		a := byte(1 | 4)
+		if masked {
+			a = 4
+		}
+		stream := cat(fr(ref.OpText, true, masked, 0, strings.Repeat("a", 300)+"\xe2\x82"), fr(ref.OpPing, true, masked, 0, "0123456789"),
+			fr(ref.OpText, true, masked, 0, "ok"), fr(ref.OpClose, true, masked, 0, "\x03\xe8"))
+		for _, ab := range [][2]byte{{a | 0x80, 0x00}, {a, 0x00}, {a, 0x10}, {a, 0x01}} {
+			out = append(out, cat([]byte{2 + 6, ab[0], ab[1], 0}, stream))
+		}
+	}
 	for _, l := range hostileLens {
 		for _, masked := range []bool{false, true} {
 			a := byte(1)
